@@ -133,3 +133,116 @@ Definition key_eqb (a b : spec) : bool :=
   str_eqb (spath a) (spath b) && str_eqb (sname a) (sname b) && str_eqb (sctext a) (sctext b).
 Definition mixed_ties (run : list spec) : bool :=
   existsb (fun a => existsb (fun b => key_eqb a b && negb (Bool.eqb (shasc a) (shasc b))) run) run.
+
+(* ================================================================================================
+   The same code WITH the token.File line table (f.lines: offsets of the line starts).  This is
+   the model the differential run executes.  lineAt = File.PositionFor(p, false).Line,
+   MergeLine(line) removes the entry of line+1 and panics when there is no such line.  sline and
+   sendline of the records are not read here: every line number is computed from the current
+   table, exactly as the code does (so a merge can change later run boundaries).
+   ================================================================================================ *)
+Definition line_at (lines : list Z) (off : Z) : Z :=
+  Z.of_nat (length (filter (fun s => s <=? off) lines)).
+
+Fixpoint remove_nth {A} (n : nat) (l : list A) : list A :=
+  match l, n with
+  | [], _ => []
+  | _ :: r, O => r
+  | x :: r, S n' => x :: remove_nth n' r
+  end.
+
+Definition merge_line (lines : list Z) (line : Z) : M (list Z) :=
+  if line <? 1 then Panic                                   (* "invalid line number %d (should be >= 1)" *)
+  else if zlen lines <=? line then Panic                    (* "invalid line number %d (should be < %d)" *)
+  else Ok (remove_nth (Z.to_nat line) lines).
+
+(* the dedup loop with its else branch:  p := s.Pos(); fset.File(p).MergeLine(lineAt(fset, p)) *)
+Fixpoint dedupe_m (lines : list Z) (l : list spec) : M (list spec * list Z) :=
+  match l with
+  | [] => Ok ([], lines)
+  | s :: rest =>
+    match rest with
+    | [] => Ok ([s], lines)
+    | n :: _ => if collapse s n
+                then lines' <- merge_line lines (line_at lines (spos s)) ;; dedupe_m lines' rest
+                else dl <- dedupe_m lines rest ;; Ok (s :: fst dl, snd dl)
+    end
+  end.
+
+(* the loop  for rParenLine > lastLine+1 { rParenLine--; MergeLine(rParenLine) }  (n = iterations left) *)
+Fixpoint rparen_loop (n : nat) (lines : list Z) (rp : Z) : M (list Z) :=
+  match n with
+  | O => Ok lines
+  | S n' => lines' <- merge_line lines (rp - 1) ;; rparen_loop n' lines' (rp - 1)
+  end.
+
+Section SorterLines.
+  Variable sorter : list spec -> list spec.
+
+  Definition sort_specs_m (lines : list Z) (run : list spec) : M (list spec * list Z) :=
+    if Nat.leb (length run) 1 then Ok (run, lines)
+    else dl <- dedupe_m lines (sorter run) ;;
+         out <- reassign (map span_of run) (fst dl) ;; Ok (out, snd dl).
+
+  (* the loop of SortImports over d.Specs; out = specs appended so far *)
+  Fixpoint block_loop (lines : list Z) (prev : option spec) (cur l out : list spec) : M (list spec * list Z) :=
+    match l with
+    | [] => ol <- sort_specs_m lines cur ;; Ok (out ++ fst ol, snd ol)
+    | s :: r =>
+      match prev with
+      | Some p => if line_at lines (spos s) >? 1 + line_at lines (send p)
+                  then ol <- sort_specs_m lines cur ;; block_loop (snd ol) (Some s) [s] r (out ++ fst ol)
+                  else block_loop lines (Some s) (cur ++ [s]) r out
+      | None => block_loop lines (Some s) (cur ++ [s]) r out
+      end
+    end.
+
+  (* one parenthesised import declaration, Rparen at offset rp *)
+  Definition sort_block_m (lines : list Z) (rp : Z) (specs : list spec) : M (list spec * list Z) :=
+    ol <- block_loop lines None [] specs [] ;;
+    match rev (fst ol) with
+    | [] => Ok ol                                            (* len(d.Specs) == 0 *)
+    | last :: _ =>
+      let lastLine := line_at (snd ol) (spos last) in
+      let rParenLine := line_at (snd ol) rp in
+      lines' <- rparen_loop (Z.to_nat (rParenLine - lastLine - 1)) (snd ol) rParenLine ;;
+      Ok (fst ol, lines')
+    end.
+
+  Inductive ldecl :=
+  | LImport (lparen : bool) (rparen : Z) (specs : list spec)
+  | LOther.
+
+  Fixpoint sort_imports_m (lines : list Z) (ds : list ldecl) : M (list ldecl * list Z) :=
+    match ds with
+    | [] => Ok ([], lines)
+    | LOther :: _ => Ok (ds, lines)
+    | LImport false rp sp :: r => rl <- sort_imports_m lines r ;; Ok (LImport false rp sp :: fst rl, snd rl)
+    | LImport true rp sp :: r =>
+      ol <- sort_block_m lines rp sp ;;
+      rl <- sort_imports_m (snd ol) r ;; Ok (LImport true rp (fst ol) :: fst rl, snd rl)
+    end.
+End SorterLines.
+
+Definition sort_imports_lines_exec (lines : list Z) (ds : list ldecl) : M (list ldecl * list Z) :=
+  sort_imports_m isort lines ds.
+
+(* the groups of a block as SortImports (or the printer) would see them in line table `lines`:
+   a spec starts a new group when its line is more than one past the end line of the previous one *)
+Fixpoint groups_loop (lines : list Z) (prev : option spec) (cur : list spec) (l : list spec) : list (list spec) :=
+  match l with
+  | [] => [cur]
+  | s :: r => match prev with
+              | Some p => if line_at lines (spos s) >? 1 + line_at lines (send p)
+                          then cur :: groups_loop lines (Some s) [s] r
+                          else groups_loop lines (Some s) (cur ++ [s]) r
+              | None => groups_loop lines (Some s) (cur ++ [s]) r
+              end
+  end.
+Definition groups_in (lines : list Z) (specs : list spec) : list (list spec) := groups_loop lines None [] specs.
+
+Fixpoint path_sorted (l : list spec) : bool :=
+  match l with
+  | a :: (b :: _) as r => negb (str_ltb (spath b) (spath a)) && path_sorted r
+  | _ => true
+  end.
